@@ -173,6 +173,14 @@ def runtime_lines(ctx):
         ("S = NormalizeCat(\n InFieldName = A, RawValues = [1],\n NormalValues = [0, 1], DefaultNormalValue = 0)\n", "MixedArrayLengths", [7]),
         ("S = Sum(InFieldNames = [])\n", "EmptyInputs", [7]),
     ]
+    # later commands that use the same argument names on other lines (and a later program that does): an error's line is its own command's
+    trailer = ('T1 = CvtToFuzzy(InFieldName = A,\n\n  Direction = LowToHigh)\nT2 = NormalizeCurve(InFieldName = A,\n\n\n  RawValues = [1, 2], NormalValues = [0, 1])\n'
+               'T3 = FuzzySelectedUnion(InFieldNames = [F],\n\n  TruestOrFalsest = Truest,\n\n  NumberToConsider = 1)\nT4 = FuzzyUnion(\n\n\n  InFieldNames = [F, F])\n')
+    try:
+        Program.from_source(head + "\n\n\n" + trailer, working_dir=tmp)
+    except Exception:
+        pass
+    cases = cases + [(t + trailer, e, l) for t, e, l in cases]
     for tail, err, lines in cases:
         src = head + tail
         try:
@@ -277,6 +285,12 @@ def run(ctx):
     cycle_lines(ctx)
     runtime_lines(ctx)
     cli_marks(ctx, ctx.budget(30, 600))
+    # files in EEMS 2.0 syntax (arguments on their own lines): faults carry the line of the command, as in MPilot syntax
+    from . import c12
+    tmp2 = common.tmpdir("mpv_c11e_")
+    open(os.path.join(tmp2, "in.csv"), "w").write("a,b\n1,2\n3,4\n")
+    base, classes = progrun.library_classes(c12.LIBS)
+    c12.eems2_faults(ctx, model, tmp2, {"in": "in.csv"}, sorted(classes, key=lambda c: c.name))
     return ctx.finish(
         rule="(a) renderings with blank/comment lines, trailing comments, arguments and lists spread over several lines, LF or CRLF, the true line of every "
              "node recorded by the renderer; (b) the same after 0-3 earlier parses on one Parser (valid, EEMS-2.0, failing late) and after earlier loads in the process; "
